@@ -284,7 +284,7 @@ func exprChain(info *types.Info, e ast.Expr) (ops []cop, leaf ast.Expr) {
 				continue
 			}
 			if f := CalleeOf(info, x); f != nil && f.Pkg() != nil && f.Pkg().Path() == "math" && len(x.Args) == 1 {
-				ops = append(ops, cop{kind: "call", name: f.Name(), typ: info.TypeOf(x)})
+				ops = append(ops, cop{kind: "call", name: FNm(f), typ: info.TypeOf(x)})
 				e = x.Args[0]
 				continue
 			}
@@ -543,7 +543,7 @@ func checkC03(c *Ctx) {
 			ops, leaf := ec.args[1].ops, ec.args[1].leaf
 			if leaf == "Interface" && len(ops) == 1 && ops[0].kind == "assert" {
 				q := ec.fn.Type().(*types.Signature).Params().At(1).Type()
-				c.Check(types.Identical(q, ops[0].typ), "R3.1", "zapcore.Field.AddTo", "enc-param/"+tn, ec.pos, "%s takes %s, the arm passes f.Interface.(%s)", ec.fn.Name(), TypeName(q), TypeName(ops[0].typ))
+				c.Check(types.Identical(q, ops[0].typ), "R3.1", "zapcore.Field.AddTo", "enc-param/"+tn, ec.pos, "%s takes %s, the arm passes f.Interface.(%s)", FNm(ec.fn), TypeName(q), TypeName(ops[0].typ))
 			}
 		}
 	}
@@ -711,9 +711,9 @@ func c3IntegerChain(c *Ctx, cname, slot string, l fieldLit, e ast.Expr, arm *arm
 		why = "the value arrives as " + TypeName(final) + " instead of " + TypeName(P)
 	}
 	if why == "" && !types.Identical(q, P) {
-		why = "encoder method " + enc.Name() + " takes " + TypeName(q)
+		why = "encoder method " + FNm(enc) + " takes " + TypeName(q)
 	}
-	c.Check(ok, "R3.1", cname, "integer/"+slot, e.Pos(), "%s → [%s] → %s(%s): value-preserving for every %s on this build (int=%d bytes) %s", TypeName(P), strings.Join(steps, " → "), enc.Name(), TypeName(q), TypeName(P), sizes.Sizeof(types.Typ[types.Int]), why)
+	c.Check(ok, "R3.1", cname, "integer/"+slot, e.Pos(), "%s → [%s] → %s(%s): value-preserving for every %s on this build (int=%d bytes) %s", TypeName(P), strings.Join(steps, " → "), FNm(enc), TypeName(q), TypeName(P), sizes.Sizeof(types.Typ[types.Int]), why)
 }
 
 func c3Bool(c *Ctx) {
@@ -746,11 +746,11 @@ func c3Bool(c *Ctx) {
 			}
 		}
 	}
-	c.Check(ok, "R3.1", fn.String(), "integer/BoolType", fn.Pos(), "true is packed as 1 and false as 0")
+	c.Check(ok, "R3.1", FStr(fn), "integer/BoolType", fn.Pos(), "true is packed as 1 and false as 0")
 	addTo := c.Method(CorePath, "Field", "AddTo")
 	okU := false
 	for _, cl := range CallsDeep(addTo) {
-		if f := CalleeFunc(cl); f != nil && f.Name() == "AddBool" {
+		if f := CalleeFunc(cl); f != nil && FNm(f) == "AddBool" {
 			okU = Desc(Args(cl)[2]) == "(f.Integer == 1)"
 		}
 	}
@@ -785,7 +785,7 @@ func c3Pointers(c *Ctx) {
 			continue
 		}
 		fn := c.SSA.FuncValue(fo)
-		name := fn.String()
+		name := FStr(fn)
 		val := fn.Params[1]
 		var nilOK, valOK bool
 		detail := ""
@@ -802,9 +802,9 @@ func c3Pointers(c *Ctx) {
 				}
 				if h != nil && ctor != nil && call.Call.Args[0] == ssa.Value(fn.Params[0]) && call.Call.Args[1] == ssa.Value(val) {
 					csig := ctor.Signature
-					okC := csig.Params().Len() == 2 && types.Identical(csig.Params().At(1).Type(), pt.Elem()) && ctor.Name()+"p" == fo.Name()
+					okC := csig.Params().Len() == 2 && types.Identical(csig.Params().At(1).Type(), pt.Elem()) && FNm(ctor)+"p" == FNm(fo)
 					okH := ptrHelperShape(h)
-					c.Check(okC && okH, "R3.2", name, "nil-or-deref", fn.Pos(), "delegates to %s(key, val, %s): the helper returns nilField(key) exactly under nil and otherwise calls the given value constructor of %s with *val (constructor ok=%v, helper shape ok=%v)", h.Name(), ctor.Name(), TypeName(pt.Elem()), okC, okH)
+					c.Check(okC && okH, "R3.2", name, "nil-or-deref", fn.Pos(), "delegates to %s(key, val, %s): the helper returns nilField(key) exactly under nil and otherwise calls the given value constructor of %s with *val (constructor ok=%v, helper shape ok=%v)", FNm(h), FNm(ctor), TypeName(pt.Elem()), okC, okH)
 					continue
 				}
 			}
@@ -820,7 +820,7 @@ func c3Pointers(c *Ctx) {
 				continue
 			}
 			atoms := AtomStrings(Guards(r))
-			if callee.Name() == "nilField" {
+			if FNm(callee) == "nilField" {
 				nilOK = len(atoms) == 1 && atoms[0] == PN(val)+" == nil" && call.Call.Args[0] == ssa.Value(fn.Params[0])
 				continue
 			}
@@ -828,15 +828,15 @@ func c3Pointers(c *Ctx) {
 			u, isLoad := call.Call.Args[1].(*ssa.UnOp)
 			valOK = csig.Params().Len() == 2 && types.Identical(csig.Params().At(1).Type(), pt.Elem()) &&
 				isLoad && u.Op == token.MUL && u.X == ssa.Value(val) && call.Call.Args[0] == ssa.Value(fn.Params[0]) &&
-				callee.Name()+"p" == fo.Name() && len(atoms) == 1 && atoms[0] == PN(val)+" != nil"
-			detail += " delegates to " + callee.Name() + "(" + TypeName(csig.Params().At(1).Type()) + ")"
+				FNm(callee)+"p" == FNm(fo) && len(atoms) == 1 && atoms[0] == PN(val)+" != nil"
+			detail += " delegates to " + FNm(callee) + "(" + TypeName(csig.Params().At(1).Type()) + ")"
 		}
 		c.Check(nilOK && valOK, "R3.2", name, "nil-or-deref", fn.Pos(), "returns nilField(key) exactly under nil and otherwise the value constructor of %s applied to *val (%s)", TypeName(pt.Elem()), strings.TrimSpace(detail))
 	}
 	nf := c.Func(ZapPath, "nilField")
 	if c.Anchor("R3.2", "zap.nilField", nf != nil) {
 		for _, r := range Returns(nf) {
-			c.Check(Desc(RetVals(r)[0]) == "Reflect(key, nil)", "R3.2", nf.String(), "explicit-null", r.Pos(), "nil pointers are rendered through Reflect(key, nil), i.e. an explicit null")
+			c.Check(Desc(RetVals(r)[0]) == "Reflect(key, nil)", "R3.2", FStr(nf), "explicit-null", r.Pos(), "nil pointers are rendered through Reflect(key, nil), i.e. an explicit null")
 		}
 	}
 }
@@ -930,7 +930,7 @@ func c3Any(c *Ctx) {
 		})
 		if cc.List == nil {
 			hasDefault = true
-			okd := inst != nil && ctor != nil && ctor.Name() == "Reflect" && types.Identical(inst, types.Universe.Lookup("any").Type())
+			okd := inst != nil && ctor != nil && FNm(ctor) == "Reflect" && types.Identical(inst, types.Universe.Lookup("any").Type())
 			c.Check(okd, "R3.3", "go.uber.org/zap.Any", "default-reflect", cc.Pos(), "every other type falls back to Reflect")
 			continue
 		}
@@ -944,7 +944,7 @@ func c3Any(c *Ctx) {
 			sig := ctor.Type().(*types.Signature)
 			okT := types.Identical(X, inst)
 			okF := sig.Params().Len() == 2 && types.Identical(sig.Params().At(1).Type(), X) && types.Identical(sig.Results().At(0).Type(), field)
-			c.Check(okT && okF, "R3.3", "go.uber.org/zap.Any", "arm/"+slot, cc.Pos(), "case %s asserts %s (a different type would silently yield the zero value) and calls %s whose value parameter is %s", slot, TypeName(inst), ctor.Name(), TypeName(sig.Params().At(1).Type()))
+			c.Check(okT && okF, "R3.3", "go.uber.org/zap.Any", "arm/"+slot, cc.Pos(), "case %s asserts %s (a different type would silently yield the zero value) and calls %s whose value parameter is %s", slot, TypeName(inst), FNm(ctor), TypeName(sig.Params().At(1).Type()))
 			armsT = append(armsT, armT{X, ctor, cc.Pos()})
 		}
 	}
@@ -953,7 +953,7 @@ func c3Any(c *Ctx) {
 	choice := map[string]string{"[]byte": "Binary", "string": "String", "error": "NamedError", "fmt.Stringer": "Stringer", "zapcore.ObjectMarshaler": "Object", "zapcore.ArrayMarshaler": "Array", "[]zapcore.Field": "dictField"}
 	for _, a := range armsT {
 		if w, ok := choice[TypeName(a.t)]; ok {
-			c.Check(a.ctor.Name() == w, "R3.3", "go.uber.org/zap.Any", "choice/"+TypeName(a.t), a.pos, "%s is represented by %s (documented choice %s)", TypeName(a.t), a.ctor.Name(), w)
+			c.Check(FNm(a.ctor) == w, "R3.3", "go.uber.org/zap.Any", "choice/"+TypeName(a.t), a.pos, "%s is represented by %s (documented choice %s)", TypeName(a.t), FNm(a.ctor), w)
 		}
 	}
 	// shadowing
@@ -1012,12 +1012,12 @@ func c3Any(c *Ctx) {
 		if !types.Identical(sig.Params().At(0).Type(), types.Typ[types.String]) {
 			continue
 		}
-		if why, ok := except[fo.Name()]; ok {
-			c.Triv("R3.3", "go.uber.org/zap.Any", "coverage/"+fo.Name(), fo.Pos(), "exempt: %s", why)
+		if why, ok := except[FNm(fo)]; ok {
+			c.Triv("R3.3", "go.uber.org/zap.Any", "coverage/"+FNm(fo), fo.Pos(), "exempt: %s", why)
 			continue
 		}
 		T := sig.Params().At(1).Type()
-		c.Check(haveT(T), "R3.3", "go.uber.org/zap.Any", "coverage/"+fo.Name(), fo.Pos(), "constructor %s(%s) has a matching Any arm", fo.Name(), TypeName(T))
+		c.Check(haveT(T), "R3.3", "go.uber.org/zap.Any", "coverage/"+FNm(fo), fo.Pos(), "constructor %s(%s) has a matching Any arm", FNm(fo), TypeName(T))
 	}
 	// anyFieldC.Any asserts T and calls f
 	af := c.Named(ZapPath, "anyFieldC")
@@ -1154,7 +1154,7 @@ func c3Any(c *Ctx) {
 					bad = append(bad, sq)
 				}
 			}
-			c.Check(!trunc && nCtor > 0 && len(bad) == 0, "R3.3", afn.String(), "value-of-T-reaches-constructor", afn.Pos(), "on every path of the adapter on which the value is a T (every path that did not establish the opposite) the result is the typed constructor's field for (key, value) - %d paths, offending: %v", len(seqs), bad)
+			c.Check(!trunc && nCtor > 0 && len(bad) == 0, "R3.3", FStr(afn), "value-of-T-reaches-constructor", afn.Pos(), "on every path of the adapter on which the value is a T (every path that did not establish the opposite) the result is the typed constructor's field for (key, value) - %d paths, offending: %v", len(seqs), bad)
 		}
 	}
 }
@@ -1171,13 +1171,13 @@ func idx2(order []string, idx map[string]int) []string {
 // itself, ObjectValues the address of the element inside the caller's slice (not of a copy: a marshaler with a pointer
 // receiver sees - and may lock or update - the original); every element is visited, and the first error is returned.
 func c3ObjectElems(c *Ctx, fn *ssa.Function, byAddr bool) {
-	name := fn.String()
+	name := FStr(fn)
 	if fn.Origin() != nil && fn.Origin() != fn {
 		return // decided once, on the generic body
 	}
 	recv := fn.Params[0]
 	isApp := func(cl ssa.CallInstruction) bool {
-		return cl.Common().IsInvoke() && cl.Common().Method.Name() == "AppendObject"
+		return cl.Common().IsInvoke() && FNm(cl.Common().Method) == "AppendObject"
 	}
 	var app *ssa.Call
 	n := 0
@@ -1185,6 +1185,11 @@ func c3ObjectElems(c *Ctx, fn *ssa.Function, byAddr bool) {
 		if isApp(cl) {
 			app, _ = cl.(*ssa.Call)
 			n++
+		}
+	}
+	if n == 0 {
+		if c3ObjectElemsViaHelper(c, fn, byAddr, isApp) {
+			return
 		}
 	}
 	if n != 1 || app == nil {
@@ -1230,6 +1235,133 @@ func c3ObjectElems(c *Ctx, fn *ssa.Function, byAddr bool) {
 	}
 }
 
+// c3ObjectElemsViaHelper: the same delivery through a counting helper: fn hands a (generic) helper of the module the
+// number of elements - len of the receiver - and an accessor literal; the helper calls AppendObject(at(i)) for i from 0
+// up to that number, leaving only by returning an element's error; the accessor yields element i of the receiver
+// (ObjectValues: its address). Reports the obligations itself; false when the code does not have this shape.
+func c3ObjectElemsViaHelper(c *Ctx, fn *ssa.Function, byAddr bool, isApp func(ssa.CallInstruction) bool) bool {
+	name := FStr(fn)
+	recv := fn.Params[0]
+	strip := func(v ssa.Value) ssa.Value {
+		for k := 0; k < 6; k++ {
+			switch x := v.(type) {
+			case *ssa.MakeInterface:
+				v = x.X
+				continue
+			case *ssa.ChangeType:
+				v = x.X
+				continue
+			case *ssa.ChangeInterface:
+				v = x.X
+				continue
+			}
+			break
+		}
+		return v
+	}
+	for _, cl := range Calls(fn) {
+		site, isCall := cl.(*ssa.Call)
+		h := loopHelperOf(cl)
+		if !isCall || h == nil {
+			continue
+		}
+		var app *ssa.Call
+		na := 0
+		for _, hc := range Calls(h) {
+			if isApp(hc) {
+				app, _ = hc.(*ssa.Call)
+				na++
+			}
+		}
+		if na != 1 || app == nil {
+			continue
+		}
+		// AppendObject(at(i)): at is a parameter of the helper, i the loop counter
+		get, isGet := strip(app.Call.Args[0]).(*ssa.Call)
+		if !isGet || len(get.Call.Args) != 1 {
+			continue
+		}
+		atParam, isP := get.Call.Value.(*ssa.Parameter)
+		if !isP || atParam.Parent() != h {
+			continue
+		}
+		ai, ni := -1, -1
+		for i, q := range h.Params {
+			if q == atParam {
+				ai = i
+			}
+		}
+		// the loop: counter from 0, compared with a parameter of the helper, left early only by returning the error
+		hd := LoopHeader(app.Block())
+		okLoop := false
+		why := "AppendObject is not in a counting loop"
+		if hd != nil {
+			if iff, isIf := hd.Instrs[len(hd.Instrs)-1].(*ssa.If); isIf {
+				if bo, isBO := iff.Cond.(*ssa.BinOp); isBO && bo.Op == token.LSS && Strip(bo.X) == Strip(get.Call.Args[0]) {
+					if np, isNP := Strip(bo.Y).(*ssa.Parameter); isNP && np.Parent() == h {
+						for i, q := range h.Params {
+							if q == np {
+								ni = i
+							}
+						}
+						if phi, isPhi := Strip(bo.X).(*ssa.Phi); isPhi && len(phi.Edges) == 2 {
+							zero, step := false, false
+							for _, e := range phi.Edges {
+								if k, isC := ConstInt(e); isC && k == 0 {
+									zero = true
+								}
+								if inc, isInc := e.(*ssa.BinOp); isInc && inc.Op == token.ADD && inc.X == ssa.Value(phi) {
+									if k, isC := ConstInt(inc.Y); isC && k == 1 {
+										step = true
+									}
+								}
+							}
+							okLoop = zero && step
+							why = ""
+						}
+					}
+				}
+			}
+		}
+		if ai < 0 || ni < 0 || !okLoop || ai >= len(site.Call.Args) || ni >= len(site.Call.Args) {
+			continue
+		}
+		for k, r := range Returns(h) {
+			rv := RetVals(r)[0]
+			c.Check(IsNilConst(Strip(rv)) || Strip(rv) == ssa.Value(app), "R3.4", name, "helper-return#"+itoa(k+1), r.Pos(), "the helper returns nil or the error just received (%s)", Desc(rv))
+		}
+		// the call site: the count is len(receiver), the accessor yields element i (or its address)
+		cnt := Desc(site.Call.Args[ni]) == "len("+PN(recv)+")"
+		okAt := false
+		what := "element i itself"
+		if byAddr {
+			what = "the address of element i in the caller's slice"
+		}
+		got := Desc(site.Call.Args[ai])
+		if mk, isMk := site.Call.Args[ai].(*ssa.MakeClosure); isMk {
+			g, _ := mk.Fn.(*ssa.Function)
+			if g != nil && len(g.Params) == 1 && len(Returns(g)) == 1 {
+				rv := strip(RetVals(Returns(g)[0])[0])
+				got = Desc(rv)
+				var ia *ssa.IndexAddr
+				if byAddr {
+					ia, _ = rv.(*ssa.IndexAddr)
+				} else if ld, isLd := rv.(*ssa.UnOp); isLd && ld.Op == token.MUL {
+					ia, _ = ld.X.(*ssa.IndexAddr)
+				}
+				okAt = ia != nil && Desc(ia.X) == PN(recv) && Strip(ia.Index) == ssa.Value(g.Params[0])
+			}
+		}
+		for k, r := range Returns(fn) {
+			rv := RetVals(r)[0]
+			c.Check(IsNilConst(Strip(rv)) || Strip(rv) == ssa.Value(site), "R3.4", name, "return#"+itoa(k+1), r.Pos(), "returns nil or what the helper returned (%s)", Desc(rv))
+		}
+		c.Check(cnt && okAt, "R3.4", name, "every-element-itself", site.Pos(), "through %s: AppendObject receives %s (accessor yields %s) for i = 0 … len(%s)-1 (count handed over: %s) until one fails %s", FNm(h), what, got, PN(recv), Desc(site.Call.Args[ni]), why)
+		return true
+	}
+	return false
+}
+
 func c3Slices(c *Ctx) {
 	arrEnc := c.Named(CorePath, "ArrayEncoder")
 	if !c.Anchor("R3.4", "zapcore.ArrayEncoder", arrEnc != nil) {
@@ -1253,7 +1385,7 @@ func c3Slices(c *Ctx) {
 			if rn == nil {
 				continue
 			}
-			name := fn.String()
+			name := FStr(fn)
 			if on := rn.Obj().Name(); on == "objects" || on == "objectValues" {
 				c3ObjectElems(c, fn, on == "objectValues")
 				continue
@@ -1270,7 +1402,7 @@ func c3Slices(c *Ctx) {
 			}
 			elem := sl.Elem()
 			isApp := func(cl ssa.CallInstruction) bool {
-				return cl.Common().IsInvoke() && strings.HasPrefix(cl.Common().Method.Name(), "Append")
+				return cl.Common().IsInvoke() && strings.HasPrefix(FNm(cl.Common().Method), "Append")
 			}
 			// the one Append call: in the method, in a function literal of it, or in the function (a method
 			// expression, say) it hands to the helper that owns the loop
@@ -1354,7 +1486,7 @@ func c3Slices(c *Ctx) {
 				direct = unconverted(arg, recvN)
 			}
 			okT := types.Identical(q, elem) || types.Identical(q.Underlying(), coreType(elem))
-			c.Check(direct && okT && visits && over == recvN, "R3.4", name, "every-element-unconverted", app.Pos(), "%s(%s) is called for every element of the receiver (elements of type %s, argument %s) %s", app.Call.Method.Name(), TypeName(q), TypeName(elem), d, why)
+			c.Check(direct && okT && visits && over == recvN, "R3.4", name, "every-element-unconverted", app.Pos(), "%s(%s) is called for every element of the receiver (elements of type %s, argument %s) %s", FNm(app.Call.Method), TypeName(q), TypeName(elem), d, why)
 			// returns nil (or the error just received)
 			for k, r := range Returns(fn) {
 				v := RetVals(r)[0]
@@ -1377,7 +1509,7 @@ func c3Slices(c *Ctx) {
 		if _, isSlice := sig.Params().At(1).Type().Underlying().(*types.Slice); !isSlice {
 			continue
 		}
-		if sig.TypeParams().Len() > 0 || sig.Variadic() || fo.Name() == "Binary" || fo.Name() == "ByteString" {
+		if sig.TypeParams().Len() > 0 || sig.Variadic() || FNm(fo) == "Binary" || FNm(fo) == "ByteString" {
 			continue
 		}
 		fn := c.SSA.FuncValue(fo)
@@ -1392,7 +1524,7 @@ func c3Slices(c *Ctx) {
 					ok = isCT && ct.X == ssa.Value(fn.Params[1])
 				}
 			}
-			c.Check(ok, "R3.4", fn.String(), "wraps-parameter#"+itoa(k+1), r.Pos(), "returns Array(key, <named slice type>(param)): the slice itself, no copy, no element conversion (%s)", Desc(RetVals(r)[0]))
+			c.Check(ok, "R3.4", FStr(fn), "wraps-parameter#"+itoa(k+1), r.Pos(), "returns Array(key, <named slice type>(param)): the slice itself, no copy, no element conversion (%s)", Desc(RetVals(r)[0]))
 		}
 	}
 	if n < 20 {
@@ -1405,7 +1537,7 @@ func c3Time(c *Ctx) {
 	if !c.Anchor("R3.5", "zap.Time", fn != nil) {
 		return
 	}
-	name := fn.String()
+	name := FStr(fn)
 	field := c.fieldNamed()
 	tt, _ := c.ConstVal(CorePath, "TimeType")
 	tf, _ := c.ConstVal(CorePath, "TimeFullType")
@@ -1518,7 +1650,7 @@ func c3Time(c *Ctx) {
 	addTo := c.Method(CorePath, "Field", "AddTo")
 	nT := 0
 	for _, cl := range CallsDeep(addTo) {
-		if f := CalleeFunc(cl); f != nil && f.Name() == "AddTime" {
+		if f := CalleeFunc(cl); f != nil && FNm(f) == "AddTime" {
 			for _, alt := range valueAlternatives(Args(cl)[2], cl.Block()) {
 				d := alt.desc
 				conds := append(append([]string{}, alt.conds...), AtomStrings(Guards(cl))...)
@@ -1558,9 +1690,9 @@ func c3NilErrorR(c *Ctx, rule string) {
 			sawLit = len(atoms) == 1 && atoms[0] == "err != nil"
 		}
 	}
-	c.Check(sawSkip && sawLit, rule, ne.String(), "nil-skipped", ne.Pos(), "NamedError returns Skip() exactly for a nil error and an ErrorType field otherwise")
+	c.Check(sawSkip && sawLit, rule, FStr(ne), "nil-skipped", ne.Pos(), "NamedError returns Skip() exactly for a nil error and an ErrorType field otherwise")
 	for _, r := range Returns(er) {
-		c.Check(Desc(RetVals(r)[0]) == `NamedError("error", err)`, rule, er.String(), "key-error", r.Pos(), "Error(err) is NamedError(\"error\", err) (%s)", Desc(RetVals(r)[0]))
+		c.Check(Desc(RetVals(r)[0]) == `NamedError("error", err)`, rule, FStr(er), "key-error", r.Pos(), "Error(err) is NamedError(\"error\", err) (%s)", Desc(RetVals(r)[0]))
 	}
 	sk := c.Func(ZapPath, "Skip")
 	st, _ := c.ConstVal(CorePath, "SkipType")
@@ -1570,7 +1702,7 @@ func c3NilErrorR(c *Ctx, rule string) {
 			okS = true
 		}
 	}
-	c.Check(okS, rule, sk.String(), "skip-type", sk.Pos(), "Skip() builds a SkipType field")
+	c.Check(okS, rule, FStr(sk), "skip-type", sk.Pos(), "Skip() builds a SkipType field")
 }
 
 func c3Equals(c *Ctx, byType map[string][]fieldLit) {
@@ -1634,7 +1766,7 @@ func c3Equals(c *Ctx, byType map[string][]fieldLit) {
 			},
 		})
 		if trunc || len(seqs) == 0 {
-			c.Und("R3.7", fn.String(), "paths/"+tn, fn.Pos(), "path exploration incomplete (%d, truncated=%v)", len(seqs), trunc)
+			c.Und("R3.7", FStr(fn), "paths/"+tn, fn.Pos(), "path exploration incomplete (%d, truncated=%v)", len(seqs), trunc)
 			return
 		}
 		for _, sq := range seqs {
@@ -1673,10 +1805,10 @@ func c3Equals(c *Ctx, byType map[string][]fieldLit) {
 		}
 	}
 	badEq = uniqSorted(badEq)
-	c.Check(len(badDirected) == 0, "R3.7", fn.String(), "symmetric-relations-only", fn.Pos(), "Equals compares payloads with symmetric relations only (==, bytes.Equal, time.Equal, reflect.DeepEqual); a directed one (errors.Is unwraps only its first argument) makes a.Equals(b) differ from b.Equals(a): %v", uniqSorted(badDirected))
-	c.Check(len(badEq) == 0, "R3.7", fn.String(), "interface-eq-only-for-comparable-payloads", fn.Pos(), "over %d paths (FieldType fixed to each of its constants, helpers inline; %d reach a == on interface-carrying operands): such a == is reachable only for field types whose Interface payload has a comparable concrete static type; offending: %v (an uncomparable dynamic value makes == panic)", nPaths, nEq, badEq)
-	c.Check(len(badDeepBytes) == 0, "R3.7", fn.String(), "byte-payloads-by-content", fn.Pos(), "[]byte payloads are compared by content (bytes.Equal), not with reflect.DeepEqual, which tells a nil slice from an empty one: fields built from equal inputs must compare equal: %v", uniqSorted(badDeepBytes))
-	c.Check(len(badBytes) == 0, "R3.7", fn.String(), "bytes-equal-only-for-byte-payloads", fn.Pos(), "bytes.Equal is reached only for field types whose payload is []byte: %v", uniqSorted(badBytes))
+	c.Check(len(badDirected) == 0, "R3.7", FStr(fn), "symmetric-relations-only", fn.Pos(), "Equals compares payloads with symmetric relations only (==, bytes.Equal, time.Equal, reflect.DeepEqual); a directed one (errors.Is unwraps only its first argument) makes a.Equals(b) differ from b.Equals(a): %v", uniqSorted(badDirected))
+	c.Check(len(badEq) == 0, "R3.7", FStr(fn), "interface-eq-only-for-comparable-payloads", fn.Pos(), "over %d paths (FieldType fixed to each of its constants, helpers inline; %d reach a == on interface-carrying operands): such a == is reachable only for field types whose Interface payload has a comparable concrete static type; offending: %v (an uncomparable dynamic value makes == panic)", nPaths, nEq, badEq)
+	c.Check(len(badDeepBytes) == 0, "R3.7", FStr(fn), "byte-payloads-by-content", fn.Pos(), "[]byte payloads are compared by content (bytes.Equal), not with reflect.DeepEqual, which tells a nil slice from an empty one: fields built from equal inputs must compare equal: %v", uniqSorted(badDeepBytes))
+	c.Check(len(badBytes) == 0, "R3.7", FStr(fn), "bytes-equal-only-for-byte-payloads", fn.Pos(), "bytes.Equal is reached only for field types whose payload is []byte: %v", uniqSorted(badBytes))
 }
 
 // c3Provenance: in the constructor's SSA, every value stored into the
@@ -1755,7 +1887,7 @@ func ptrHelperShape(h *ssa.Function) bool {
 			return false
 		}
 		atoms := AtomStrings(GuardsOfBlock(r.Block()))
-		if f := CalleeFunc(call); f != nil && f.Name() == "nilField" {
+		if f := CalleeFunc(call); f != nil && FNm(f) == "nilField" {
 			nilOK = len(atoms) == 1 && atoms[0] == PN(val)+" == nil" && call.Call.Args[0] == ssa.Value(key)
 			continue
 		}
@@ -1799,7 +1931,7 @@ func c3FloatBits(c *Ctx, rule string) {
 		width := map[string]int64{"Float64Type": 8, "Float32Type": 4}[k.Name()]
 		ai := c3ArmSSA(c, fn, kv)
 		if ai.trunc {
-			c.Und(rule, fn.String(), "float-bits/"+k.Name(), fn.Pos(), "path exploration incomplete")
+			c.Und(rule, FStr(fn), "float-bits/"+k.Name(), fn.Pos(), "path exploration incomplete")
 			continue
 		}
 		n++
@@ -1834,10 +1966,10 @@ func c3FloatBits(c *Ctx, rule string) {
 		if nEnc != 1 {
 			bad = append(bad, "expected exactly one encoder call, found "+itoa(nEnc))
 		}
-		c.Check(len(bad) == 0, rule, fn.String(), "float-bits/"+k.Name(), fn.Pos(), "for a %s field every path hands the encoder math.%s of the Integer slot, with only integer conversions that keep all %d bytes (no conversion between floating-point types) on the way: bit patterns, not just values: %v", k.Name(), wantCall, width, bad)
+		c.Check(len(bad) == 0, rule, FStr(fn), "float-bits/"+k.Name(), fn.Pos(), "for a %s field every path hands the encoder math.%s of the Integer slot, with only integer conversions that keep all %d bytes (no conversion between floating-point types) on the way: bit patterns, not just values: %v", k.Name(), wantCall, width, bad)
 	}
 	if n != 2 {
-		c.Bad(rule, fn.String(), "float-bits/count", fn.Pos(), "expected Float64Type and Float32Type, decided %d", n)
+		c.Bad(rule, FStr(fn), "float-bits/count", fn.Pos(), "expected Float64Type and Float32Type, decided %d", n)
 	}
 }
 
@@ -1950,7 +2082,7 @@ func c3NoFuncPayload(c *Ctx, rule string, byType map[string][]fieldLit) {
 					continue // handed on as an interface: decided where the concrete value is made
 				}
 				n++
-				c.Check(!holdsFunc(t, 0), rule, pk.PkgPath+"."+fd.Name.Name, "call/"+ct.fn.Name()+"#"+itoa(n), call.Pos(), "%s is handed a payload of static type %s (compared by reflect.DeepEqual as a %s field), which holds no function", ct.fn.Name(), TypeName(t), ct.tn)
+				c.Check(!holdsFunc(t, 0), rule, pk.PkgPath+"."+fd.Name.Name, "call/"+FNm(ct.fn)+"#"+itoa(n), call.Pos(), "%s is handed a payload of static type %s (compared by reflect.DeepEqual as a %s field), which holds no function", FNm(ct.fn), TypeName(t), ct.tn)
 			}
 			return true
 		})
